@@ -98,4 +98,46 @@ Definition ev_withdraw_by (e : event) (c : addr) (init id : ontid) (r : role) : 
 Definition ev_withdraw (s : state) (e : event) (c : addr) (id : ontid) (r : role) : Prop :=
   exists init d, ev_withdraw_by e c init id r /\ deleg_of s c id r = Some d /\ d_root d = init.
 
+(** * History-level vocabulary ([run h1] is the state in which event [e] of [h1 ++ e :: h2] executes) *)
+Notation runv := (run valid_id).
+
+Definition times_u32 (h : list event) : Prop := Forall (fun e => ev_now e < 4294967296) h.
+
+(** function [f] was given to role [r] of contract [c] by an accepted assignFuncsToRole *)
+Definition fn_given (h : list event) (c r f : bytes) : Prop :=
+  exists h1 e h2, h = h1 ++ e :: h2 /\ ev_assign_fn (runv h1) e c r f.
+
+(** [id] was named for role [r] in an accepted assignOntIDsToRole (the property text's reading) *)
+Definition role_named (h : list event) (c id r : bytes) : Prop :=
+  exists h1 e h2, h = h1 ++ e :: h2 /\ ev_names_id (runv h1) e c id r.
+
+(** ... in one that also stored the token (the code's behaviour) *)
+Definition role_assigned (h : list event) (c id r : bytes) : Prop :=
+  exists h1 e h2, h = h1 ++ e :: h2 /\ ev_assign_id (runv h1) e c id r.
+
+(** The delegation of role [r] to [id] in force after [h]: the last accepted delegation to
+    (c, id, r), made by [from] with expiry [exp] and level [lvl], provided [from] has not
+    withdrawn it since (with a valid identity proof). *)
+Definition deleg_in_force (h : list event) (c id r from : bytes) (exp lvl : N) : Prop :=
+  exists h1 e h2,
+    h = h1 ++ e :: h2 /\ ev_delegate (runv h1) e c from id r exp lvl /\
+    (forall h2a e' h2b, h2 = h2a ++ e' :: h2b -> ~ ev_delegate_to (runv (h1 ++ e :: h2a)) e' c id r) /\
+    (forall e', In e' h2 -> ~ ev_withdraw_by e' c from id r).
+
+(** "[id] holds, directly or through an unexpired delegation, a role to which [f] is assigned",
+    at time [now] after history [h]; the code's reading and the property text's reading. *)
+Definition may_call (h : list event) (now : N) (c id f : bytes) : Prop :=
+  exists r, fn_given h c r f /\
+    ((role_assigned h c id r /\ now <= AUTH_FUTURE) \/
+     (exists from exp lvl, deleg_in_force h c id r from exp lvl /\ now <= exp)).
+Definition may_call_text (h : list event) (now : N) (c id f : bytes) : Prop :=
+  exists r, fn_given h c r f /\
+    ((role_named h c id r /\ now <= AUTH_FUTURE) \/
+     (exists from exp lvl, deleg_in_force h c id r from exp lvl /\ now <= exp)).
+
+(** no accepted role assignment of [h] was silently skipped *)
+Definition no_skipped_assignment (h : list event) : Prop :=
+  forall h1 e h2 c id r, h = h1 ++ e :: h2 -> ev_names_id (runv h1) e c id r ->
+                         ~ blocked (runv h1) (ev_now e) c id r.
+
 End WithValid.
